@@ -430,6 +430,11 @@ class Engine:
             op = x.op
             sub = x.args[0] if x.args else None
             if op == 'LValueToRValue':
+                sv = self.load_from_literal(E, sub)
+                if sv is not None:
+                    T[x.id] = sv
+                    self.hooks.on_elem(E, x)
+                    return None
                 p = self.canon(E, sub)
                 if p is not None and self.trackable(p):
                     v = E.store.get(p, TOP)
@@ -564,6 +569,31 @@ class Engine:
         self.hooks.on_elem(E, x)
         return None
 
+    def load_from_literal(self, E, lv):
+        """*p or p[i] where p is known to point to a string literal"""
+        lv = lv.strip() if lv is not None else None
+        if lv is None:
+            return None
+        if lv.k == 'un' and lv.op == '*':
+            pv, idx = self.value_of(E, lv.args[0]), 0
+        elif lv.k == 'idx':
+            pv = self.value_of(E, lv.args[0])
+            iv = self.value_of(E, lv.args[1])
+            if iv is TOP or len(iv) != 1:
+                return None
+            idx = next(iter(iv))
+        else:
+            return None
+        if pv is TOP or not pv:
+            return None
+        out = set()
+        for a in pv:
+            if isinstance(a, tuple) and a[0] == 'str' and isinstance(idx, int) and 0 <= idx <= len(a[1]):
+                out.add(ord(a[1][idx]) if idx < len(a[1]) else 0)
+            else:
+                return None
+        return frozenset(wrap(v, 'char') for v in out)
+
     def binset(self, op, a, b, t):
         cmp = op in ('==', '!=', '<', '<=', '>', '>=')
         if a is TOP or b is TOP:
@@ -687,7 +717,8 @@ class Engine:
                 lv = live.get(bid, ())
                 if not self.keep_dead:
                     st = {p: v for p, v in st.items()
-                          if not p.startswith(fid + '::') or root_of(p).split('::', 1)[1] in lv}
+                          if not p.startswith(fid + '::') or root_of(p).split('::', 1)[1][:2] not in ('L:', 'P:')
+                          or root_of(p).split('::', 1)[1] in lv}
                 temps = self.prune_temps(fn, bid, temps)
             skey = (bid, idx, self.freeze(st), self.freeze(temps))
             if skey in seen:
@@ -915,14 +946,20 @@ class Engine:
         old = E.store.get(p, TOP)
         if old is TOP:
             # x == c  (true)  or  x != c (false)  or !x / x
-            c = cond.strip()
+            def is_load(z):
+                while z is not None and z.k == 'cast' and z.op != 'LValueToRValue' and z.args:
+                    z = z.args[0]
+                return z is not None and z.k == 'cast' and z.op == 'LValueToRValue'
+            c = cond
+            while c is not None and c.k == 'cast' and c.op != 'LValueToRValue' and c.args:
+                c = c.args[0]
             want = None
-            if c.k == 'bin' and c.op in ('==', '!='):
+            if c is not None and c.k == 'bin' and c.op in ('==', '!='):
                 for a, b in ((c.args[0], c.args[1]), (c.args[1], c.args[0])):
-                    if a.strip().k == 'cast' and a.strip().op == 'LValueToRValue' and b.const is not None:
+                    if is_load(a) and b.const is not None:
                         if pred(1 if c.op == '==' else 0) and not pred(0 if c.op == '==' else 1):
                             want = fs(b.const)
-            elif c.k == 'cast' and c.op == 'LValueToRValue':
+            elif c is not None and is_load(c):
                 if pred(0) and not pred(1):
                     want = fs(0)
             if want is not None:
